@@ -2,208 +2,371 @@
 from __future__ import annotations
 
 import ast
+import copy
+import itertools
 import re
-from typing import Any
+from typing import Any, Callable, Iterator
 
-from ..astutil import Locals, call_name, cfg_of, constructs_error, names_in, norm, receivers, short, stmt_calls, stmt_of, where
-from ..cfg import CFG
+from ..astutil import Locals, call_name, calls_in, cfg_of, constructs_error, names_in, norm, receivers, region, stmt_of, where
+from ..cfg import CFG, EXIT
 from ..core import Report
-from .siblings import enum_merge_parity
 
-LEVEL = ("structural clauses on merge_properties / _process_properties / _process_models: every type-pair branch has its mirror "
-         "selecting the same base class (order symmetry), the enum narrowing depends on member values, the final fall-through "
-         "is an error; requiredness is a disjunction, inline members' `required` lists are unioned on every path, and must reach "
-         "every inserted property; all members contribute (Reference and inline); parent properties are not mutated; the "
-         "unprocessed-parent error re-queues, self-reference is diverted (separator-anchored test).")
+LEVEL = ("structural clauses on the region of merge_properties / _process_properties / _process_models, decided on paths (small symbolic "
+         "execution over isinstance atoms, statement CFG), never on statement shape: every merge function dispatches symmetrically in "
+         "its two arguments, the class that is discarded at a merge site is the wider one (Any > number/string > integer > enum), the "
+         "smaller enum wins and both subset directions are tried, incompatible pairs end in an error, the enum subset decision looks at "
+         "values; requiredness is a disjunction, inline members' `required` lists are unioned on every path and reach every inserted "
+         "property; all members contribute (Reference and inline, required and optional properties of a parent); parent properties are "
+         "not mutated; every model of a round is processed, re-queued or reported, self-reference is diverted (separator-anchored test).")
 
+# the order of the property statement: integer over number, formatted string over string, enum over its base type, anything over Any
+WIDTH = {"AnyProperty": 3, "FloatProperty": 2, "StringProperty": 2, "IntProperty": 1}
+MERGE_BASE_FN = "_merge_common_attributes"  # (base, *extend_with): the result has the class of `base`
+
+
+# ======================================================================================================================
+# a tiny symbolic executor for the (small, loop-poor) merge functions: which returns are reached under which truth values
+# of the tests, with locals resolved to what they hold on that path.  Indifferent to elif / early return / nested if, to
+# negated tests with swapped branches, to conditional expressions vs if statements and to the spelling of locals.
+# ======================================================================================================================
+
+class _State:
+    def __init__(self, store: dict[str, ast.expr | None] | None = None, assume: dict[str, bool] | None = None) -> None:
+        self.store: dict[str, ast.expr | None] = dict(store or {})
+        self.assume: dict[str, bool] = dict(assume or {})
+
+    def fork(self) -> "_State":
+        return _State(self.store, self.assume)
+
+
+class _Subst(ast.NodeTransformer):
+    def __init__(self, store: dict[str, ast.expr | None]) -> None:
+        self.store = store
+
+    def visit_Name(self, n: ast.Name) -> ast.AST:
+        if isinstance(n.ctx, ast.Load) and self.store.get(n.id) is not None:
+            return copy.deepcopy(self.store[n.id])
+        return n
+
+    def visit_Call(self, n: ast.Call) -> ast.AST:
+        self.generic_visit(n)
+        if call_name(n).rsplit(".", 1)[-1] == "cast" and len(n.args) == 2:  # typing.cast is the identity at run time
+            return n.args[1]
+        return n
+
+
+def _resolve(e: ast.expr, st: _State) -> ast.expr:
+    return _Subst(st.store).visit(copy.deepcopy(e))
+
+
+_NEG = {ast.IsNot: ast.Is, ast.NotEq: ast.Eq, ast.NotIn: ast.In}
+
+
+class SymExec:
+    """terminals: (return statement or None for falling off the end, resolved return expression, state)"""
+
+    def __init__(self, fn: ast.FunctionDef, env: dict[str, bool] | None = None) -> None:
+        self.fn = fn
+        self.env = env or {}
+        self.atoms: dict[str, ast.expr] = {}
+        self.terminals: list[tuple[ast.stmt | None, ast.expr | None, _State]] = []
+        self.budget = 4000
+        for st in self._seq(fn.body, [_State()]):
+            self.terminals.append((None, None, st))
+
+    # -- tests ---------------------------------------------------------------------------------------------------------
+    def _truth(self, test: ast.expr, st: _State) -> list[tuple[bool, _State]]:
+        """the possible truth values of test in state st, each with the state in which it holds (unknown atoms fork)"""
+        if isinstance(test, ast.BoolOp):
+            is_and = isinstance(test.op, ast.And)
+            out: list[tuple[bool, _State]] = []
+            pending = [st]
+            for v in test.values:
+                nxt = []
+                for s in pending:
+                    for val, s2 in self._truth(v, s):
+                        if val != is_and:  # short circuit: a false conjunct / a true disjunct decides
+                            out.append((val, s2))
+                        else:
+                            nxt.append(s2)
+                pending = nxt
+            return out + [(is_and, s) for s in pending]
+        if isinstance(test, ast.UnaryOp) and isinstance(test.op, ast.Not):
+            return [(not v, s) for v, s in self._truth(test.operand, st)]
+        if isinstance(test, ast.NamedExpr) and isinstance(test.target, ast.Name):
+            st.store[test.target.id] = _resolve(test.value, st)
+            return self._truth(test.value, st)
+        neg = False
+        if isinstance(test, ast.Compare) and len(test.ops) == 1:
+            for part in (test.left, test.comparators[0]):  # walrus inside a comparison: `(m := f(x)) is not None`
+                if isinstance(part, ast.NamedExpr) and isinstance(part.target, ast.Name):
+                    st.store[part.target.id] = _resolve(part.value, st)
+            if type(test.ops[0]) in _NEG:
+                neg = True
+                test = ast.Compare(left=test.left, ops=[_NEG[type(test.ops[0])]()], comparators=test.comparators)
+        r = _resolve(test, st)
+        for n in ast.walk(r):  # the walrus itself is not part of the atom
+            if isinstance(n, ast.Compare):
+                n.left = n.left.value if isinstance(n.left, ast.NamedExpr) else n.left
+                n.comparators = [c.value if isinstance(c, ast.NamedExpr) else c for c in n.comparators]
+        if isinstance(r, ast.Constant):
+            return [(bool(r.value) != neg, st)]
+        if isinstance(r, ast.Compare) and len(r.ops) == 1 and isinstance(r.ops[0], (ast.Is, ast.Eq)) and isinstance(r.left, ast.Constant) and \
+                isinstance(r.comparators[0], ast.Constant):  # a local known to hold None / a literal on this path
+            same = r.left.value is r.comparators[0].value if isinstance(r.ops[0], ast.Is) else r.left.value == r.comparators[0].value
+            return [(bool(same) != neg, st)]
+        if isinstance(r, (ast.BoolOp, ast.UnaryOp)) and r is not test and norm(r) != norm(test):
+            return [(v != neg, s) for v, s in self._truth(r, st)]  # a local that holds a boolean expression
+        key = norm(r)
+        self.atoms.setdefault(key, r)
+        if key in self.env:
+            return [(self.env[key] != neg, st)]
+        if key in st.assume:
+            return [(st.assume[key] != neg, st)]
+        a, b = st.fork(), st.fork()
+        a.assume[key], b.assume[key] = True, False
+        return [(True != neg, a), (False != neg, b)]
+
+    # -- statements ----------------------------------------------------------------------------------------------------
+    def _seq(self, body: list[ast.stmt], states: list[_State]) -> list[_State]:
+        cur = states
+        for s in body:
+            nxt: list[_State] = []
+            for st in cur:
+                nxt += self._stmt(s, st)
+            cur = nxt
+            if not cur:
+                break
+        return cur
+
+    def _bind(self, target: ast.expr, value: ast.expr | None, st: _State) -> None:
+        if isinstance(target, ast.Name):
+            st.store[target.id] = _resolve(value, st) if value is not None else None
+        elif isinstance(target, (ast.Tuple, ast.List)):
+            if isinstance(value, (ast.Tuple, ast.List)) and len(value.elts) == len(target.elts):
+                vals = [_resolve(v, st) for v in value.elts]
+                for t, v in zip(target.elts, vals):
+                    if isinstance(t, ast.Name):
+                        st.store[t.id] = v
+            else:
+                for n in names_in(target):
+                    st.store[n] = None
+
+    def _assign(self, targets: list[ast.expr], value: ast.expr, st: _State) -> list[_State]:
+        if isinstance(value, ast.IfExp):  # x = A if T else B  ==  if T: x = A else: x = B
+            out: list[_State] = []
+            for val, s2 in self._truth(value.test, st):
+                out += self._assign(targets, value.body if val else value.orelse, s2)
+            return out
+        for t in targets:
+            self._bind(t, value, st)
+        return [st]
+
+    def _ret(self, s: ast.Return, value: ast.expr | None, st: _State) -> None:
+        if isinstance(value, ast.IfExp):  # return A if T else B
+            for val, s2 in self._truth(value.test, st):
+                self._ret(s, value.body if val else value.orelse, s2)
+        else:
+            self.terminals.append((s, _resolve(value, st) if value is not None else None, st))
+
+    def _stmt(self, s: ast.stmt, st: _State) -> list[_State]:
+        self.budget -= 1
+        if self.budget < 0:
+            raise RuntimeError("symbolic execution budget exceeded")
+        if isinstance(s, ast.Return):
+            self._ret(s, s.value, st)
+            return []
+        if isinstance(s, (ast.Raise, ast.Continue, ast.Break)):
+            if isinstance(s, ast.Raise):
+                self.terminals.append((s, None, st))
+            return []
+        if isinstance(s, ast.If):
+            out: list[_State] = []
+            for val, s2 in self._truth(s.test, st):
+                out += self._seq(s.body if val else s.orelse, [s2])
+            return out
+        if isinstance(s, (ast.Assign, ast.AnnAssign)) and getattr(s, "value", None) is not None:
+            targets = s.targets if isinstance(s, ast.Assign) else [s.target]
+            return self._assign(targets, s.value, st)
+        if isinstance(s, ast.AugAssign):
+            for n in names_in(s.target):
+                st.store[n] = None
+            return [st]
+        if isinstance(s, (ast.For, ast.AsyncFor, ast.While)):
+            bound = {n.id for x in ast.walk(s) for n in [x] if isinstance(n, ast.Name) and isinstance(n.ctx, ast.Store)}
+            inner = st.fork()
+            for n in bound:
+                inner.store[n] = None
+                st.store[n] = None
+            after = self._seq(s.body, [inner])  # one symbolic iteration (returns inside are terminals), or none at all
+            return [st] + after[:1]
+        if isinstance(s, (ast.With, ast.AsyncWith)):
+            return self._seq(s.body, [st])
+        if isinstance(s, ast.Try):
+            return self._seq(s.body + s.orelse + s.finalbody, [st])
+        return [st]
+
+
+def _type_names(ix: Any, module: Any, e: ast.expr, depth: int = 0) -> frozenset[str]:
+    """class names of the second argument of isinstance (tuples and module-level tuple constants expanded)"""
+    if isinstance(e, ast.Tuple):
+        return frozenset().union(*[_type_names(ix, module, x, depth) for x in e.elts]) if e.elts else frozenset()
+    if isinstance(e, ast.Name) and depth < 4:
+        r = ix.resolve(module, e.id)
+        if r and r[0] == "var":
+            mod, n = r[1]
+            return _type_names(ix, mod, mod.variables[n], depth + 1)
+    return frozenset({norm(e).rsplit(".", 1)[-1]})
+
+
+def _isinstance_atom(ix: Any, module: Any, e: ast.AST, params: list[str]) -> tuple[str, frozenset[str]] | None:
+    if isinstance(e, ast.Call) and call_name(e) == "isinstance" and len(e.args) == 2 and isinstance(e.args[0], ast.Name) and e.args[0].id in params:
+        return e.args[0].id, _type_names(ix, module, e.args[1])
+    return None
+
+
+class MergeFn:
+    """one two-argument merge function, executed under every truth assignment of its isinstance(<argument>, T) tests"""
+
+    def __init__(self, ix: Any, f: Any) -> None:
+        self.f = f
+        a = f.node.args
+        self.params = [p.arg for p in [*a.posonlyargs, *a.args]][:2]
+        self.atoms: dict[str, tuple[str, frozenset[str]]] = {}
+        self.runs: list[tuple[dict[str, bool], SymExec]] = []
+        seen: set[str] = set()
+        for _ in range(3):  # atoms on a local appear once the local is resolved (enum_prop -> prop1 when prop1 is the enum)
+            probes = [SymExec(f.node)] + [r for _, r in self.runs]
+            for p in probes:
+                for key, e in p.atoms.items():
+                    at = _isinstance_atom(ix, f.module, e, self.params)
+                    if at is not None:
+                        self.atoms[key] = at
+            if set(self.atoms) == seen or len(self.atoms) > 10:
+                break
+            seen = set(self.atoms)
+            self.runs = []
+            keys = sorted(self.atoms)
+            for vals in itertools.product([False, True], repeat=len(keys)):
+                env = dict(zip(keys, vals))
+                self.runs.append((env, SymExec(f.node, env)))
+
+    def restrict_to_calls_from(self, caller: "MergeFn") -> None:
+        """keep the truth assignments under which `caller` can call this function with its own two arguments in the same order (the callee
+        may rely on what the caller has established, e.g. `one of the two is an enum`)"""
+        if len(self.params) < 2 or len(caller.params) < 2:
+            return
+        ren = dict(zip(caller.params, self.params))
+
+        def to_callee(text: str) -> str:
+            return re.sub(r"\b(" + "|".join(map(re.escape, ren)) + r")\b", lambda m: ren[m.group(1)], text)
+
+        shared = {k: to_callee(k) for k in caller.atoms if to_callee(k) in self.atoms}
+        seen_call = False
+        allowed: set[tuple[tuple[str, bool], ...]] = set()
+        for env, r in caller.runs:
+            for s, e, st in r.terminals:
+                exprs = ([e] if e is not None else []) + [r.atoms[k] for k in st.assume if k in r.atoms]
+                for c in (c for x in exprs for c in calls_in(x)):
+                    if call_name(c) == self.f.name and [norm(a) for a in c.args[:2]] == caller.params:
+                        seen_call = True
+                        allowed.add(tuple(sorted((shared[k], v) for k, v in env.items() if k in shared)))
+        if seen_call:
+            self.runs = [(env, r) for env, r in self.runs if tuple(sorted((k, v) for k, v in env.items() if k in shared.values())) in allowed]
+
+    def swap_text(self, text: str) -> str:
+        if len(self.params) < 2:
+            return text
+        a, b = self.params
+        return re.sub(rf"\b({re.escape(a)}|{re.escape(b)})\b", lambda m: b if m.group(1) == a else a, text)
+
+    def classes_of(self, env: dict[str, bool], st: _State, param: str) -> frozenset[str] | None:
+        """the classes the argument can be an instance of on this path, as far as its isinstance tests say (None: nothing is known)"""
+        yes = [ts for key, (p, ts) in self.atoms.items() if p == param and env.get(key, st.assume.get(key)) is True]
+        no = [ts for key, (p, ts) in self.atoms.items() if p == param and env.get(key, st.assume.get(key)) is False]
+        if not yes:
+            return None
+        return frozenset.intersection(*yes) - (frozenset().union(*no) if no else frozenset())
+
+
+def _descr(e: ast.expr | None, params: list[str]) -> str:
+    """what a return hands back, as far as dispatch is concerned: the callee, an error, an argument as it is, None"""
+    if e is None or (isinstance(e, ast.Constant) and e.value is None):
+        return "None"
+    if constructs_error(e) and isinstance(e, ast.Call):
+        return "<error>"
+    if isinstance(e, ast.Call):
+        return call_name(e)
+    if isinstance(e, ast.Name) and e.id in params:
+        return "<argument>"
+    return "<value>"
+
+
+def _base_param(e: ast.expr, params: list[str]) -> str | None:
+    """the argument whose class the result has: evolve(x, ...) keeps the class of x"""
+    while isinstance(e, ast.Call) and call_name(e).rsplit(".", 1)[-1] == "evolve" and e.args:
+        e = e.args[0]
+    return e.id if isinstance(e, ast.Name) and e.id in params else None
+
+
+def _not_wider(cb: frozenset[str] | None, co: frozenset[str] | None) -> bool:
+    """whatever the two arguments are on this path, the class that is kept is the other one's class or a narrower one"""
+    if co is not None and co <= {"AnyProperty"}:
+        return True  # nothing is wider than Any
+    if cb is None or co is None:
+        return False
+    return all(x == y or WIDTH.get(x, 0) < WIDTH.get(y, 0) for x in cb for y in co)
+
+
+def _subset_tests(ix: Any, mf: MergeFn) -> list[tuple[ast.AST, str, str]]:
+    """(test node, smaller, larger): `a.values <= b.values` or a call of a region helper with (a, b) that compares so itself"""
+    out = []
+    p = mf.params
+    for n in ast.walk(mf.f.node):
+        if isinstance(n, ast.Compare) and len(n.ops) == 1 and isinstance(n.ops[0], (ast.LtE, ast.Lt, ast.GtE, ast.Gt)):
+            l, r = names_in(n.left) & set(p), names_in(n.comparators[0]) & set(p)
+            if len(l) == 1 and len(r) == 1 and l != r:
+                small, large = (next(iter(l)), next(iter(r))) if isinstance(n.ops[0], (ast.LtE, ast.Lt)) else (next(iter(r)), next(iter(l)))
+                out.append((n, small, large))
+        elif isinstance(n, ast.Call) and len(n.args) == 2 and all(isinstance(a, ast.Name) and a.id in p for a in n.args) and \
+                n.args[0].id != n.args[1].id:  # type: ignore[attr-defined]
+            callee = [h for h in region(ix, mf.f, 1) if h.name == call_name(n) and h is not mf.f]
+            if callee and _subset_compares(callee[0].node):
+                hp = [x.arg for x in callee[0].params][:2]
+                for c in _subset_compares(callee[0].node):
+                    l, r = names_in(c.left) & set(hp), names_in(c.comparators[0]) & set(hp)
+                    if len(l) == 1 and len(r) == 1 and l != r:
+                        fwd = (next(iter(l)) == hp[0]) == isinstance(c.ops[0], (ast.LtE, ast.Lt))
+                        a0, a1 = n.args[0].id, n.args[1].id  # type: ignore[attr-defined]
+                        out.append((n, a0, a1) if fwd else (n, a1, a0))
+                        break
+    return out
+
+
+def _subset_compares(fn: ast.AST) -> list[ast.Compare]:
+    return [n for n in ast.walk(fn) if isinstance(n, ast.Compare) and len(n.ops) == 1 and isinstance(n.ops[0], (ast.LtE, ast.Lt, ast.GtE, ast.Gt))]
+
+
+# ======================================================================================================================
 
 def run(rep: Report, ctx: Any) -> str:
     ix = ctx.py
     it, _ = ctx.flow
     cfgs: dict[str, CFG] = {}
-    rep.rule("R15.1", "merge is order-symmetric: each isinstance(prop1, A) and isinstance(prop2, B) branch has the mirrored branch "
-                      "with the same base; enum narrowing compares (name, value) pairs; the fall-through of merge_properties is an error")
+    rep.rule("R15.1", "merge is order-symmetric: every merge function takes the same decision when its two arguments are exchanged; where "
+                      "one argument's class is discarded it is the wider one (Any > number/string > integer > enum); of two enums the "
+                      "subset wins, both directions are tried and the decision compares values; pairs that fit no rule end in an error")
     rep.rule("R15.2", "requiredness only grows: `required` of a merge is a disjunction; inline members' required lists are unioned on "
                       "every path; every property inserted into the composed model takes its requiredness from required_set")
     rep.rule("R15.3", "all members contribute: data.properties and every element of data.allOf, Reference and inline Schema")
-    rep.rule("R15.4", "parents first: the unprocessed-parent error re-queues the model; self reference is diverted to final errors")
+    rep.rule("R15.4", "parents first: a model that failed is re-queued or reported, never dropped; self reference is diverted to final errors")
     rep.rule("R15.5", "properties inherited from a referenced parent are shared objects and are not mutated while composing a child")
 
     mp = ix.func("merge_properties.merge_properties")
-    # ---- R15.1 mirrors -----------------------------------------------------------------------------------------------
-    n_pairs = 0
-    for fname in ("_merge_string_with_format", "_merge_numeric"):
-        f = ix.func(f"merge_properties.{fname}")
-        branches = []
-        for n in ast.walk(f.node):
-            if isinstance(n, ast.If):
-                cur: ast.stmt | None = n
-                while isinstance(cur, ast.If):
-                    branches.append(cur)
-                    cur = cur.orelse[0] if len(cur.orelse) == 1 and isinstance(cur.orelse[0], ast.If) else None
-                break
-        pairs = []
-        for b in branches:
-            m = re.fullmatch(r"isinstance\((prop[12]), (.+?)\) and isinstance\((prop[12]), (.+)\)", norm(b.test))
-            ret = next((r for r in b.body if isinstance(r, ast.Return)), None)
-            if m and ret is not None and isinstance(ret.value, ast.Call):
-                base = norm(ret.value.args[0]) if ret.value.args else ""
-                pairs.append((m.group(1), m.group(2), m.group(3), m.group(4), base, b))
-        n_pairs += len(pairs)
-        rep.check(len(pairs) == 2, "R15.1", f"{fname}::two-mirrored-branches", "expected a branch and its mirror", where(f, f.node),
-                  lhs=[norm(b.test)[:60] for b in branches], rhs="A/B and B/A")
-        if len(pairs) == 2:
-            (v1, t1, v2, t2, base1, b1), (w1, u1, w2, u2, base2, b2) = pairs
-            mirrored = {v1: t1, v2: t2} == {w2: u2, w1: u1} or ({t1, t2} == {u1, u2} and v1 != w1)
-            # the base (first positional argument of _merge_common_attributes) must be the more specific side in both
-            spec1 = base1 == v1 if _more_specific(t1, t2) else base1 == v2
-            spec2 = base2 == w1 if _more_specific(u1, u2) else base2 == w2
-            rep.check(mirrored and spec1 and spec2, "R15.1", f"{fname}::symmetric",
-                      "the two orders of the same type pair do not select the same (more specific) base class", where(f, f.node),
-                      lhs=[norm(b1.test), base1], rhs=[norm(b2.test), base2])
-    rep.floor("mirrored_type_pairs", n_pairs, 4)
-    # Any on either side; enum on either side
-    txt = norm(mp.node)
-    for a, b in (("isinstance(prop2, AnyProperty)", "isinstance(prop1, AnyProperty)"),):
-        rep.check(a in txt and b in txt, "R15.1", "merge_properties::any-both-sides", "AnyProperty is handled on one side only", where(mp, mp.node))
-    for kind in ("EnumProperty", "LiteralEnumProperty"):
-        rep.check(f"isinstance(prop1, {kind}) or isinstance(prop2, {kind})" in txt, "R15.1", f"merge_properties::{kind}-either-side",
-                  f"{kind} is not dispatched symmetrically", where(mp, mp.node))
-    body = [s for s in mp.node.body if not (isinstance(s, ast.Expr) and isinstance(s.value, ast.Constant))]
-    rep.check(isinstance(body[-1], ast.Return) and constructs_error(body[-1].value), "R15.1", "merge_properties::fallthrough-error",
-              "incompatible types are no longer a diagnostic", where(mp, body[-1]))
-    enum_merge_parity(rep, ctx, "R15.1p")
-    # the subset decision depends on values (wire values), not only on member names
-    vs = ix.func("merge_properties._values_are_subset")
-    cmp_ = [n for n in ast.walk(vs.node) if isinstance(n, ast.Compare) and isinstance(n.ops[0], (ast.LtE, ast.Lt))]
-    rep.require(cmp_, "subset comparison in _values_are_subset")
-    for n in cmp_:
-        ok = True
-        for side in (n.left, n.comparators[0]):
-            av = it.node_av.get(id(side))
-            el = av.elem if av is not None else None
-            # elements must carry the member's value: (name, value) pairs or the values themselves
-            has_value = el is not None and ((el.tup is not None and len(el.tup) == 2) or ".values()" in norm(side))
-            ok = ok and has_value
-        rep.check(ok, "R15.1", "_values_are_subset::compares-values",
-                  "the narrowing decision between two enums looks at member names only: enums with different wire values that happen "
-                  "to share generated names are treated as compatible", where(vs, n), lhs=norm(n)[:90], rhs="sets of (name, value) pairs")
-    # both subset directions tried, else error
-    me = ix.func("merge_properties._merge_with_enum")
-    t2 = norm(me.node)
-    rep.check("_values_are_subset(prop1, prop2)" in t2 and "_values_are_subset(prop2, prop1)" in t2, "R15.1", "_merge_with_enum::both-directions",
-              "only one subset direction is tried", where(me, me.node))
-
-    # ---- R15.2 -----------------------------------------------------------------------------------------------------------
-    mca = ix.func("merge_properties._merge_common_attributes")
-    ev_calls = [n for n in ast.walk(mca.node) if isinstance(n, ast.Call) and call_name(n).endswith("evolve") and any(kw.arg == "required" for kw in n.keywords)]
-    rep.require(ev_calls, "required= in _merge_common_attributes")
-    over = {norm(lp.target) for lp in ast.walk(mca.node) if isinstance(lp, ast.For) and norm(lp.iter) == "extend_with"}
-    for c in ev_calls:
-        kw = next(k for k in c.keywords if k.arg == "required")
-        acc = norm(c.args[0]) if c.args else ""
-        want = {f"{acc}.required"} | {f"{o}.required" for o in over}
-        ok = isinstance(kw.value, ast.BoolOp) and isinstance(kw.value.op, ast.Or) and {norm(v) for v in kw.value.values} == want and len(want) == 2
-        rep.check(ok, "R15.2", "_merge_common_attributes::required-disjunction", "merged requiredness is not `current.required or override.required`",
-                  where(mca, kw.value), lhs=norm(kw.value), rhs=" or ".join(sorted(want)))
-    pp = ix.func("model_property._process_properties")
-    cfg = cfg_of(pp, cfgs)
-    loop, branch = allof_branch(rep, pp)
-    rep.require(branch.orelse, "inline branch in the allOf loop")
-    member = norm(loop.target)
-    # roles (locals are found by what they hold, never by their spelling):
-    #   required set  = receiver of .update(<member>.required ...) in the inline branch / the set tested by the final partition
-    #   pending props = the sequence iterated by the loop that calls property_from_data
-    upd_calls = receivers(pp.node, "update", lambda a: f"{member}.required" in a)
-    upd = [stmt_of(pp.node, c) for _, c in upd_calls]
-    req_sets = {r for r, _ in upd_calls} | set(Locals(pp.node).bound_from(lambda v: "data.required" in v, "assign"))
-    inline_first = branch.orelse[0]
-    ok = bool(upd) and cfg.every_path_passes(inline_first, loop, lambda n: n in upd) or (inline_first in upd)
-    rep.check(ok, "R15.2", "_process_properties::inline-required-unioned",
-              "the `required` list of an inline allOf member is not added to required_set on every path (e.g. members without "
-              "`properties`)", where(pp, inline_first), lhs=[norm(u)[:60] for u in upd], rhs="on every path through the inline branch")
-    build_loops = [n for n in ast.walk(pp.node) if isinstance(n, ast.For) and any(call_name(c) == "property_from_data" for c in ast.walk(n)
-                                                                                    if isinstance(c, ast.Call))]
-    rep.require(build_loops, "loop that builds the collected properties (property_from_data)")
-    pending = norm(build_loops[0].iter)
-    props_ext = [stmt_of(pp.node, c) for r, c in receivers(pp.node, "extend", lambda a: f"{member}.properties" in a) if r == pending]
-    rep.check(bool(props_ext) and (cfg.every_path_passes(inline_first, loop, lambda n: n in props_ext) or inline_first in props_ext),
-              "R15.3", "_process_properties::inline-properties-collected", "inline member properties are not collected on every path",
-              where(pp, inline_first), lhs=[norm(x)[:70] for x in props_ext], rhs=f"{pending}.extend({member}.properties...) on every inline path")
-    # the required set reaches every property of the composed model: either each insertion consults it, or the final partition
-    # promotes every property named in it (on a copy) before splitting into required / optional
-    adds = [n for n in ast.walk(pp.node) if isinstance(n, ast.Call) and call_name(n) == "_add_if_no_conflict"]
-    rep.floor("property_insertions", len(adds), 2)
-
-    def in_req(e: ast.AST) -> bool:
-        return any(isinstance(c_, ast.Compare) and isinstance(c_.ops[0], ast.In) and norm(c_.comparators[0]) in req_sets for c_ in ast.walk(e))
-
-    promoted = False
-    for lp in [n for n in ast.walk(pp.node) if isinstance(n, ast.For)]:
-        split = next((s for s in lp.body if isinstance(s, ast.If) and norm(s.test) == f"{norm(lp.target)}.required"), None)
-        for s in lp.body:
-            if isinstance(s, ast.If) and in_req(s.test) and split is not None and lp.body.index(s) < lp.body.index(split):
-                for a in s.body:
-                    if isinstance(a, ast.Assign) and norm(a.targets[0]) == norm(lp.target) and "evolve(" in norm(a.value) and \
-                            "required=True" in norm(a.value):
-                        promoted = True
-    for a in adds:
-        arg = norm(a.args[0]) if a.args else ""
-        in_ref_branch = any(x is a for s in branch.body for x in ast.walk(s))
-        if in_ref_branch:
-            rep.check(promoted, "R15.2", "_process_properties::reference-member-bypasses-required_set",
-                      "properties taken from a referenced allOf member are inserted with the parent's requiredness and nothing promotes "
-                      "them later: a sibling member's `required: [name]` does not make them mandatory", where(pp, a), lhs=arg,
-                      rhs="required depends on required_set (at insertion or in the final partition)")
-        else:
-            dep = any(isinstance(s, ast.Assign) and in_req(s.value) for s in ast.walk(pp.node))
-            rep.check(dep or promoted, "R15.2", "_process_properties::inline-insert-uses-required_set", "inserted property ignores required_set", where(pp, a))
-    # ---- R15.3 ---------------------------------------------------------------------------------------------------------------
-    rep.check("data.properties.items()" in norm(pp.node), "R15.3", "_process_properties::own-properties", "the schema's own properties are not collected",
-              where(pp, pp.node))
-    rep.check(isinstance(branch.test, ast.Call) and bool(branch.body) and bool(branch.orelse), "R15.3", "_process_properties::reference-and-inline",
-              "allOf members of one kind are ignored", where(pp, branch))
-    # ---- R15.5 -----------------------------------------------------------------------------------------------------------------
+    _merge_rules(rep, ctx, mp)
+    _required_and_members(rep, ctx, cfgs)
     check_no_parent_mutation(rep, ctx, "R15.5")
-    # ---- R15.4 -------------------------------------------------------------------------------------------------------------------
-    pm = ix.func("properties._process_models")
-    t3 = norm(pm.node)
-    # roles: the work list is what the loop calling process_model iterates; the next round is what is assigned to it at the end of a
-    # pass; a recorded error is a (model, error) tuple appended to a list that reaches _process_model_errors
-    ploops = [n for n in ast.walk(pm.node) if isinstance(n, ast.For) and any(call_name(c) == "process_model" for c in ast.walk(n) if isinstance(c, ast.Call))]
-    rep.require(ploops, "loop calling process_model")
-    pl = ploops[0]
-    model, work = norm(pl.target), norm(pl.iter)
-    nxt = {norm(a.value) for a in ast.walk(pm.node) if isinstance(a, ast.Assign) and norm(a.targets[0]) == work and isinstance(a.value, ast.Name)}
-    requeues = [c for r, c in receivers(pl, "append", lambda a: a == model) if r in nxt]
-    recorded = {r for r, _ in receivers(pl, "append", lambda a: a.startswith(f"({model},"))}
-    sink = [c for c in ast.walk(pm.node) if isinstance(c, ast.Call) and call_name(c) == "_process_model_errors"]
-    sink_args = {norm(a) for c in sink for a in c.args}
-    feeds = sink_args | {norm(c.args[0]) for r, c in receivers(pm.node, "extend") if r in sink_args and c.args}
-    rep.check(bool(requeues) and bool(recorded) and recorded <= feeds, "R15.4", "_process_models::requeue",
-              "a model whose parent is not processed yet is not re-queued (or its error of the last round is not reported)", where(pm, pl),
-              lhs={"requeue": [norm(c) for c in requeues], "recorded_in": sorted(recorded), "reported": sorted(feeds)},
-              rhs="<next round>.append(<model>) and (<model>, <error>) recorded in a list that reaches _process_model_errors")
-    rec_blocks = [s for s in ast.walk(pl) if isinstance(s, ast.If) and "Recursive allOf reference found" in norm(s)]
-    final_ok = False
-    for b in rec_blocks:
-        inner = [x for x in b.body if "Recursive allOf reference found" in norm(x)]
-        if inner and not isinstance(inner[0], ast.If):
-            rec = {r for st in b.body for r, _ in receivers(st, "append", lambda a: a.startswith(f"({model},"))}
-            final_ok = final_ok or (bool(rec) and rec <= sink_args and not any(r in nxt for st in b.body for r, _ in receivers(st, "append"))
-                                    and isinstance(b.body[-1], ast.Continue))
-    rep.check(final_ok, "R15.4", "_process_models::self-reference-final",
-              "a self-referential allOf is not diverted to the final errors", where(pm, pm.node))
-    ends = [n for n in ast.walk(pm.node) if isinstance(n, ast.Call) and isinstance(n.func, ast.Attribute) and n.func.attr == "endswith"]
-    for n in ends:
-        a = n.args[0] if n.args else None
-        ok = isinstance(a, ast.JoinedStr) and a.values and isinstance(a.values[0], ast.Constant) and str(a.values[0].value).startswith("/")
-        rep.check(ok, "R15.4", "_process_models::self-reference-test-anchored",
-                  "self reference is detected by a bare name suffix: a child whose name is a suffix of its parent's is never retried",
-                  where(pm, n), lhs=norm(n)[:80], rhs="endswith(f\"/{name}\")")
-    unproc = [n for n in ast.walk(pp.node) if isinstance(n, ast.Return) and "was not processed" in norm(n)]
-    rep.check(bool(unproc), "R15.4", "_process_properties::unprocessed-parent-error", "a not-yet-processed parent is not reported (so never retried)",
-              where(pp, pp.node))
+    _parents_first(rep, ctx, cfgs)
     return LEVEL
 
 
@@ -240,14 +403,522 @@ def allof_branch(rep: Report, pp: Any) -> tuple[ast.For, ast.If]:
     return loop, branch
 
 
-def _more_specific(t1: str, t2: str) -> bool:
-    """is the first isinstance type the more specific one (IntProperty over Int/Float, formatted string over StringProperty)?"""
-    if "StringProperty" in t1 and "STRING_WITH_FORMAT" in t2:
-        return False
-    if "STRING_WITH_FORMAT" in t1 and "StringProperty" in t2:
-        return True
-    if t1.strip() == "IntProperty":
-        return True
-    if t2.strip() == "IntProperty":
-        return False
+# ======================================================================================================================
+# R15.1
+# ======================================================================================================================
+
+def _feasible(mf: MergeFn, env: dict[str, bool]) -> bool:
+    """isinstance is monotone in the type set: an instance of T1 is an instance of every T2 that contains T1"""
+    for k1, (p1, t1) in mf.atoms.items():
+        for k2, (p2, t2) in mf.atoms.items():
+            if p1 == p2 and t1 <= t2 and env.get(k1) and env.get(k2) is False:
+                return False
     return True
+
+
+def _same_class_assumed(mf: MergeFn, run: SymExec, st: _State) -> bool:
+    for key, val in st.assume.items():
+        e = run.atoms.get(key)
+        if val and isinstance(e, ast.Compare) and isinstance(e.ops[0], ast.Is):
+            sides = [e.left, e.comparators[0]]
+            if all(isinstance(s, ast.Call) and call_name(s) == "type" and len(s.args) == 1 and isinstance(s.args[0], ast.Name) for s in sides) and \
+                    {s.args[0].id for s in sides} == set(mf.params):  # type: ignore[union-attr]
+                return True
+    return False
+
+
+def _merge_terminals(mf: MergeFn) -> Iterator[tuple[dict[str, bool], SymExec, ast.stmt, ast.Call, _State]]:
+    for env, r in mf.runs:
+        if not _feasible(mf, env):
+            continue
+        for s, e, st in r.terminals:
+            if s is not None and isinstance(e, ast.Call) and call_name(e) == MERGE_BASE_FN and e.args:
+                yield env, r, s, e, st
+
+
+def _descrs(mf: MergeFn, r: SymExec) -> set[str]:
+    return {_descr(e, mf.params) if s is not None and not isinstance(s, ast.Raise) else ("<raise>" if s is not None else "<falls off>")
+            for s, e, _ in r.terminals}
+
+
+def _referenced_region(ix: Any, f: Any, depth: int = 3) -> list[Any]:
+    """f and the private functions of its module it refers to, called directly or handed around as values (a table of strategies)"""
+    out, seen, frontier = [f], {f.qual}, [f]
+    for _ in range(depth):
+        nxt = []
+        for g in frontier:
+            used = {n.id for n in ast.walk(g.node) if isinstance(n, ast.Name) and isinstance(n.ctx, ast.Load) and n.id.startswith("_")}
+            for h in ix.all_functions:
+                if h.name in used and h.qual not in seen and h.module is g.module and h.cls is None and h.parent is None:
+                    seen.add(h.qual)
+                    out.append(h)
+                    nxt.append(h)
+        frontier = nxt
+    return out
+
+
+def _merge_rules(rep: Report, ctx: Any, mp: Any) -> None:
+    ix = ctx.py
+    it, _ = ctx.flow
+    fns = [MergeFn(ix, f) for f in _referenced_region(ix, mp) if len([*f.node.args.posonlyargs, *f.node.args.args]) >= 2 and f.node.args.vararg is None]
+    fns = [m for m in fns if m.atoms]
+    rep.require(any(m.f is mp for m in fns), "isinstance dispatch in merge_properties")
+    mpf = next(m for m in fns if m.f is mp)
+    for m in fns:
+        if m is not mpf:
+            m.restrict_to_calls_from(mpf)
+    n_pairs = 0
+    for mf in fns:
+        name = mf.f.name
+        by_env = {tuple(sorted(env.items())): (env, r) for env, r in mf.runs}
+        bases = {(_base_param(e.args[0], mf.params)) for _, _, _, e, _ in _merge_terminals(mf)} - {None}
+        chooses = len(bases) == 2
+        n_pairs += len(bases) if chooses else 0
+        # ---- the decision does not depend on the order of the two arguments ----
+        asym: dict[str, list[str]] = {}
+        for key, (p, ts) in mf.atoms.items():
+            if mf.swap_text(key) not in mf.atoms:
+                asym.setdefault("/".join(sorted(ts)), []).append(f"{key} has no counterpart on the other argument")
+        if not asym:
+            kind_of = {key: "/".join(sorted(ts)) for key, (_, ts) in mf.atoms.items()}
+            failing = []
+            for env, r in mf.runs:
+                sw = {mf.swap_text(k): v for k, v in env.items()}
+                if sw == env or not _feasible(mf, env):
+                    continue
+                differs = {kind_of[k] for k in env if env[k] != env[mf.swap_text(k)]}
+                if tuple(sorted(sw.items())) not in by_env:
+                    failing.append((differs, f"{sorted(k for k, v in env.items() if v)} is handled, the exchanged arguments are not"))
+                    continue
+                d1, d2 = _descrs(mf, r), _descrs(mf, by_env[tuple(sorted(sw.items()))][1])
+                if d1 != d2:
+                    failing.append((differs, f"{sorted(k for k, v in env.items() if v)} -> {sorted(d1)}, exchanged -> {sorted(d2)}"))
+            for differs, msg in sorted(failing, key=lambda x: (len(x[0]), len(x[1]), x[1])):  # blame the class whose test alone makes the difference
+                if len(differs) == 1 or not (differs & set(asym)):
+                    for k in differs:
+                        asym.setdefault(k, []).append(msg)
+        kinds = sorted({"/".join(sorted(ts)) for _, ts in mf.atoms.values()})
+        if mf.f is mp:
+            for kind in kinds:  # one obligation per class the dispatcher tests
+                suffix = "any-both-sides" if kind == "AnyProperty" else f"{kind}-either-side"
+                rep.check(kind not in asym, "R15.1", f"{name}::{suffix}", f"{kind} is not dispatched symmetrically: the result depends on the order of "
+                          "the allOf members", where(mf.f, mf.f.node), lhs=asym.get(kind, [])[:3], rhs="same decision with the arguments exchanged")
+            for need in ("AnyProperty", "EnumProperty", "LiteralEnumProperty"):
+                rep.require(any(need in k.split("/") for k in kinds), f"merge_properties tests its arguments for {need}")
+        else:
+            rep.check(not asym, "R15.1", f"{name}::order-symmetric",
+                      "the function decides differently when its two arguments are exchanged (a branch without its mirror)", where(mf.f, mf.f.node),
+                      lhs=[x for v in asym.values() for x in v][:3], rhs="same decision with the arguments exchanged")
+        # ---- both members contribute: a result is built from both arguments (or is an error / "no rule of mine fits") ----
+        lost = []
+        for env, r in mf.runs:
+            if not _feasible(mf, env):
+                continue
+            for s, e, st in r.terminals:
+                if s is None or isinstance(s, ast.Raise) or e is None or _descr(e, mf.params) in ("<error>", "None"):
+                    continue
+                used = names_in(e) & set(mf.params)
+                equal = any(v and isinstance(r.atoms.get(k), ast.Compare) and isinstance(r.atoms[k].ops[0], ast.Eq) and  # type: ignore[union-attr]
+                            names_in(r.atoms[k]) >= set(mf.params) for k, v in st.assume.items())
+                if isinstance(e, ast.Name) and e.id not in mf.params:
+                    continue  # a value produced elsewhere on the path (the result of a delegation held in a local)
+                if used != set(mf.params) and not equal:
+                    lost.append(f"{norm(e)[:60]} when {sorted(k for k, v in {**env, **st.assume}.items() if v)}")
+        rep.check(not lost, "R15.1", f"{name}::both-members-contribute",
+                  "a merge result is built from one of the two declarations only: what the other member says about the property (required, default, "
+                  "description) is lost, and which one is lost depends on member order", where(mf.f, mf.f.node), lhs=sorted(set(lost), key=lambda x: (len(x), x))[:3],
+                  rhs="every returned property is computed from both arguments")
+        # ---- where the class of one argument is discarded, it is the wider one ----
+        bad = []
+        n_sites = 0
+        for env, r, s, e, st in _merge_terminals(mf):
+            b = _base_param(e.args[0], mf.params)
+            if b is None:
+                continue
+            n_sites += 1
+            o = next(p for p in mf.params if p != b)
+            ok = _same_class_assumed(mf, r, st) or _not_wider(mf.classes_of(env, st, b), mf.classes_of(env, st, o))
+            if not ok:
+                bad.append(f"{norm(e)[:70]} when {sorted(k for k, v in {**env, **st.assume}.items() if v)}")
+        if n_sites:
+            rep.check(not bad, "R15.1", f"{name}::discards-wider",
+                      "a merge keeps the class of an argument that is not known to be the narrower one (integer over number, formatted string over "
+                      "string, enum over its base type, anything over Any): the composed type depends on member order or is too wide",
+                      where(mf.f, mf.f.node), lhs=sorted(set(bad), key=lambda x: (len(x), x))[:4], rhs="the discarded argument is an instance of an equal or wider class")
+    rep.floor("mirrored_type_pairs", n_pairs, 4)
+
+    # ---- incompatible types end in a diagnostic ----
+    none_env = [(env, r) for env, r in mpf.runs if not any(env.values())]
+    rep.require(none_env, "merge_properties path for arguments that are neither Any nor enums")
+    d = _descrs(mpf, none_env[0][1])
+    rep.check("<error>" in d and not (d & {"<argument>", "<falls off>", "None", "<value>"}), "R15.1", "merge_properties::fallthrough-error",
+              "incompatible types are no longer a diagnostic", where(mp, mp.node), lhs=sorted(d), rhs="delegations and, when none fits, an error")
+
+    # ---- the two enum merges: found as what merge_properties dispatches to when one argument is an enum of that kind ----
+    for kind in ("EnumProperty", "LiteralEnumProperty"):
+        callee: set[str] = set()
+        for env, r in mpf.runs:
+            on = [k for k, v in env.items() if v]
+            if len(on) == 1 and kind in mpf.atoms[on[0]][1]:
+                callee |= {x for x in _descrs(mpf, r) if not x.startswith("<") and x != "None"}
+        sib = [m for m in fns if m.f.name in callee and m.f is not mp]
+        rep.require(len(sib) == 1, f"the function merge_properties delegates {kind} to")
+        _enum_sibling(rep, ctx, sib[0], kind)
+
+
+def _enum_sibling(rep: Report, ctx: Any, mf: MergeFn, kind: str) -> None:
+    ix = ctx.py
+    it, _ = ctx.flow
+    name = mf.f.name
+    kk = {p: next((k for k, (q, ts) in mf.atoms.items() if q == p and ts == {kind}), None) for p in mf.params}
+    rep.require(all(kk.values()), f"{name} tests both arguments for {kind}")
+    tests = _subset_tests(ix, mf)
+    rep.require(tests, f"subset test between the two enums in {name}")
+    direction = {norm(n): (small, large) for n, small, large in tests}
+    a, b = mf.params
+    rep.check({(a, b), (b, a)} <= set(direction.values()), "R15.1", f"{name}::both-directions", "only one subset direction is tried", where(mf.f, mf.f.node),
+              lhs=sorted(direction), rhs="a <= b and b <= a")
+    others = {p: [k for k, (q, ts) in mf.atoms.items() if q == p and ts != {kind}] for p in mf.params}
+    wrong, n_narrow, silent, n_incompat, unchecked, n_single = [], 0, [], 0, [], 0
+    for env, r in mf.runs:
+        if not _feasible(mf, env):
+            continue
+        both = all(env[kk[p]] for p in mf.params)
+        one = [p for p in mf.params if env[kk[p]]]
+        for s, e, st in r.terminals:
+            if s is None:
+                continue
+            true_sub = [direction[k] for k, v in st.assume.items() if v and k in direction]
+            if both and isinstance(e, ast.Call):
+                # the smaller enum over the larger: whatever `values=` the result is built with belongs to the subset side
+                for c in calls_in(e):
+                    for kw in c.keywords:
+                        if kw.arg == "values" and isinstance(kw.value, ast.Attribute) and isinstance(kw.value.value, ast.Name) and kw.value.value.id in mf.params:
+                            n_narrow += 1
+                            if not any(small == kw.value.value.id for small, _ in true_sub):
+                                wrong.append(f"values={norm(kw.value)} when {[k for k, v in st.assume.items() if v and k in direction]}")
+            if both and set(direction) <= set(st.assume) and not true_sub:
+                n_incompat += 1
+                if _descr(e, mf.params) != "<error>":
+                    silent.append(norm(e)[:70])
+        if len(one) == 1:
+            o = next(p for p in mf.params if p != one[0])
+            on_other = [k for k in others[o] if env[k]]
+            d = _descrs(mf, r)
+            if not on_other:  # the other argument is of no base type at all: nothing to combine with
+                n_incompat += 1
+                if d != {"<error>"}:
+                    silent.append(f"{sorted(k for k, v in env.items() if v)} -> {sorted(d)}")
+            elif len(on_other) == 1 and not any(env[k] for k in others[one[0]]):
+                n_single += 1
+                if not ("<error>" in d and MERGE_BASE_FN in d):
+                    unchecked.append(f"{sorted(k for k, v in env.items() if v)} -> {sorted(d)}")
+    rep.require(n_narrow, f"`values=` of the narrowed enum in {name}")
+    rep.require(n_incompat and n_single, f"paths of {name} for incompatible / single-enum arguments")
+    rep.check(not wrong, "R15.1", f"{name}::smaller-enum-wins", "of two enums the result does not take the values of the one that is a subset of the "
+              "other", where(mf.f, mf.f.node), lhs=sorted(set(wrong))[:3], rhs="values of the subset side")
+    rep.check(not silent, "R15.1", f"{name}::incompatible-is-error", "two enums of which neither is a subset of the other, or an enum and a non-base "
+              "type, are merged without a diagnostic", where(mf.f, mf.f.node), lhs=sorted(set(silent))[:3], rhs="PropertyError")
+    rep.check(not unchecked, "R15.1", f"{name}::base-type-checked", "an enum is merged with an int / string property without looking at the enum's value "
+              "type", where(mf.f, mf.f.node), lhs=sorted(set(unchecked))[:3], rhs="merge or error, depending on value_type")
+    # the subset decision depends on values (wire values), not only on generated member names
+    cmps = [(g, c) for g in region(ix, mf.f, 1) if g is mf.f or any(call_name(n) == g.name for n, _, _ in tests if isinstance(n, ast.Call))
+            for c in _subset_compares(g.node)]
+    rep.require(cmps, f"subset comparison reached from {name}")
+    verdict: dict[str, tuple[bool, Any, ast.AST]] = {}
+    for g, n in cmps:
+        ok = verdict.get(g.name, (True, g, n))[0]
+        for side in (n.left, n.comparators[0]):
+            av = it.node_av.get(id(side))
+            el = av.elem if av is not None else None
+            # elements must carry the member's value: (name, value) pairs or the values themselves, not the generated names alone
+            carries = el is not None and ((el.tup is not None and len(el.tup) == 2) or ".values()" in norm(side) or bool(set(el.labels) - {"WORD"}))
+            ok = ok and carries
+        verdict[g.name] = (ok, g, n) if ok or verdict.get(g.name, (True,))[0] else verdict[g.name]
+    for gname, (ok, g, n) in verdict.items():
+        rep.check(ok, "R15.1", f"{gname}::compares-values",
+                  "the narrowing decision between two enums looks at member names only: enums with different wire values that happen "
+                  "to share generated names are treated as compatible", where(g, n), lhs=norm(n)[:90], rhs="sets of (name, value) pairs / of values")
+
+
+# ======================================================================================================================
+# R15.2 / R15.3: _process_properties
+# ======================================================================================================================
+
+def _polarity(test: ast.expr, is_target: Callable[[ast.AST], bool]) -> bool | None:
+    """True if `test` holds exactly when / only when the target sub-test holds (positive position), False if it sits under one `not`"""
+    if is_target(test):
+        return True
+    if isinstance(test, ast.UnaryOp) and isinstance(test.op, ast.Not):
+        p = _polarity(test.operand, is_target)
+        return None if p is None else not p
+    if isinstance(test, ast.BoolOp):
+        for v in test.values:
+            p = _polarity(v, is_target)
+            if p is not None:
+                return p
+    return None
+
+
+def _arm_entries(cfg: CFG, node: ast.If, positive: bool) -> tuple[object, object]:
+    """(first node executed when the decision holds, first node executed when it does not), whatever the statement shape: an `else`,
+    an early continue / return followed by the other case, swapped branches under `not`"""
+    true_entry: object = node.body[0]
+    if node.orelse:
+        false_entry: object = node.orelse[0]
+    else:
+        rest = [x for x in cfg.succ.get(node, ()) if x is not node.body[0]]
+        false_entry = rest[0] if rest else node.body[0]
+    return (true_entry, false_entry) if positive else (false_entry, true_entry)
+
+
+def allof_arms(rep: Report, pp: Any, cfg: CFG) -> tuple[ast.For, str, object, object]:
+    """the loop over data.allOf, its member variable, and where control goes for a Reference member / for an inline member"""
+    loops = [n for n in ast.walk(pp.node) if isinstance(n, ast.For) and "data.allOf" in norm(n.iter)]
+    rep.require(loops, "loop over data.allOf")
+    loop = loops[0]
+    member = norm(loop.target)
+
+    def is_ref_test(e: ast.AST) -> bool:
+        return isinstance(e, ast.Call) and call_name(e) == "isinstance" and len(e.args) == 2 and norm(e.args[0]) == member and \
+            norm(e.args[1]).rsplit(".", 1)[-1] == "Reference"
+
+    for s in ast.walk(loop):
+        if isinstance(s, ast.If):
+            pol = _polarity(s.test, is_ref_test)
+            if pol is not None:
+                ref_entry, inline_entry = _arm_entries(cfg, s, pol)
+                return loop, member, ref_entry, inline_entry
+    rep.require(False, "decision between Reference and inline members in the allOf loop")
+    raise AssertionError
+
+
+def _required_and_members(rep: Report, ctx: Any, cfgs: dict[str, CFG]) -> None:
+    ix = ctx.py
+    mca = ix.func("merge_properties._merge_common_attributes")
+    ev_calls = [n for n in ast.walk(mca.node) if isinstance(n, ast.Call) and call_name(n).endswith("evolve") and any(kw.arg == "required" for kw in n.keywords)]
+    rep.require(ev_calls, "required= in _merge_common_attributes")
+    over = {norm(lp.target) for lp in ast.walk(mca.node) if isinstance(lp, ast.For) and norm(lp.iter) == "extend_with"}
+    for c in ev_calls:
+        kw = next(k for k in c.keywords if k.arg == "required")
+        acc = norm(c.args[0]) if c.args else ""
+        want = {f"{acc}.required"} | {f"{o}.required" for o in over}
+        ok = isinstance(kw.value, ast.BoolOp) and isinstance(kw.value.op, ast.Or) and {norm(v) for v in kw.value.values} == want and len(want) == 2
+        rep.check(ok, "R15.2", "_merge_common_attributes::required-disjunction", "merged requiredness is not `current.required or override.required`",
+                  where(mca, kw.value), lhs=norm(kw.value), rhs=" or ".join(sorted(want)))
+
+    pp = ix.func("model_property._process_properties")
+    cfg = cfg_of(pp, cfgs)
+    reg = region(ix, pp)
+    loop, member, ref_entry, inline_entry = allof_arms(rep, pp, cfg)
+    in_loop = {id(x) for x in ast.walk(loop)}
+
+    def arm(entry: object) -> set[int]:
+        """statements executed for one member of that kind (until the loop takes the next member)"""
+        if entry is loop:
+            return set()
+        return {id(n) for n in cfg.reachable_from(entry, avoid=lambda n: n is loop) if id(n) in in_loop}
+
+    ref_arm, inline_arm = arm(ref_entry), arm(inline_entry)
+
+    def on_every_path(entry: object, stmts: list[ast.stmt | None]) -> bool:
+        return entry is not loop and bool(stmts) and (entry in stmts or cfg.every_path_passes(entry, loop, lambda n: n in stmts))
+
+    # roles (locals are found by what they hold, never by their spelling):
+    #   required set  = receiver of .update(<member>.required ...) / the set built from data.required
+    #   pending props = the sequence iterated by the loop that calls property_from_data
+    upd_calls = receivers(pp.node, "update", lambda a: f"{member}.required" in a)
+    upd = [stmt_of(pp.node, c) for _, c in upd_calls]
+    req_sets = {r for r, _ in upd_calls} | set(Locals(pp.node).bound_from(lambda v: "data.required" in v, "assign"))
+    rep.check(on_every_path(inline_entry, upd), "R15.2", "_process_properties::inline-required-unioned",
+              "the `required` list of an inline allOf member is not added to required_set on every path (e.g. members without "
+              "`properties`)", where(pp, loop), lhs=[norm(u)[:60] for u in upd], rhs="on every path through the inline branch")
+    build_loops = [n for n in ast.walk(pp.node) if isinstance(n, ast.For) and any(call_name(c) == "property_from_data" for c in calls_in(n))]
+    rep.require(build_loops, "loop that builds the collected properties (property_from_data)")
+    pending = norm(build_loops[0].iter)
+    props_ext = [stmt_of(pp.node, c) for r, c in receivers(pp.node, "extend", lambda a: f"{member}.properties" in a) if r == pending]
+    rep.check(on_every_path(inline_entry, props_ext), "R15.3", "_process_properties::inline-properties-collected",
+              "inline member properties are not collected on every path", where(pp, loop), lhs=[norm(x)[:70] for x in props_ext],
+              rhs=f"{pending}.extend({member}.properties...) on every inline path")
+    # the required set reaches every property of the composed model: either each insertion consults it, or the final partition
+    # promotes every property named in it (on a copy) before splitting into required / optional
+    inserters = {h.name for h in ix.all_functions if h.parent is not None and h.parent.qual == pp.qual and any(
+        isinstance(t, ast.Subscript) for a in ast.walk(h.node) if isinstance(a, ast.Assign) for t in a.targets)}
+    rep.require(inserters, "the local function of _process_properties that stores a property of the composed model")
+    adds = [n for n in ast.walk(pp.node) if isinstance(n, ast.Call) and call_name(n) in inserters]
+    rep.floor("property_insertions", len(adds), 2)
+
+    def in_req(e: ast.AST) -> bool:
+        return any(isinstance(c_, ast.Compare) and isinstance(c_.ops[0], ast.In) and norm(c_.comparators[0]) in req_sets for c_ in ast.walk(e))
+
+    promoted = False
+    for lp in [n for n in ast.walk(pp.node) if isinstance(n, ast.For)]:
+        split = next((s for s in lp.body if isinstance(s, ast.If) and norm(s.test) == f"{norm(lp.target)}.required"), None)
+        for s in lp.body:
+            if isinstance(s, ast.If) and in_req(s.test) and split is not None and lp.body.index(s) < lp.body.index(split):
+                for a in s.body:
+                    if isinstance(a, ast.Assign) and norm(a.targets[0]) == norm(lp.target) and "evolve(" in norm(a.value) and \
+                            "required=True" in norm(a.value):
+                        promoted = True
+    n_ref_adds = 0
+    for a in adds:
+        arg = norm(a.args[0]) if a.args else ""
+        if id(stmt_of(pp.node, a)) in ref_arm:
+            n_ref_adds += 1
+            rep.check(promoted, "R15.2", "_process_properties::reference-member-bypasses-required_set",
+                      "properties taken from a referenced allOf member are inserted with the parent's requiredness and nothing promotes "
+                      "them later: a sibling member's `required: [name]` does not make them mandatory", where(pp, a), lhs=arg,
+                      rhs="required depends on required_set (at insertion or in the final partition)")
+        else:
+            dep = any(isinstance(s, ast.Assign) and in_req(s.value) for s in ast.walk(pp.node))
+            rep.check(dep or promoted, "R15.2", "_process_properties::inline-insert-uses-required_set", "inserted property ignores required_set", where(pp, a))
+    # ---- R15.3 ---------------------------------------------------------------------------------------------------------------
+    rep.check(any("data.properties.items()" in norm(g.node) for g in reg), "R15.3", "_process_properties::own-properties",
+              "the schema's own properties are not collected", where(pp, pp.node))
+    # a Reference member contributes: every path that handles one and goes on to the next member inserts the parent's properties
+    ins_stmts = [s for s in ast.walk(loop) if isinstance(s, ast.stmt) and id(s) in ref_arm and
+                 (any(x is a for a in adds for x in ast.walk(s)) if not isinstance(s, ast.If) else False)]
+    rep.check(n_ref_adds > 0 and on_every_path(ref_entry, ins_stmts) and bool(inline_arm), "R15.3", "_process_properties::reference-and-inline",
+              "allOf members of one kind are ignored", where(pp, loop), lhs={"reference": [norm(s)[:50] for s in ins_stmts][:2], "inline": len(inline_arm)},
+              rhs="both kinds of member are handled")
+    # ... with all of them: the required and the optional properties of the parent (reads outside the `is it processed yet` test)
+    reads: set[str] = set()
+    for g in reg:
+        guarded = {id(x) for c in calls_in(g.node) if call_name(c) == "isinstance" for x in ast.walk(c)}
+        reads |= {n.attr for n in ast.walk(g.node) if isinstance(n, ast.Attribute) and isinstance(n.ctx, ast.Load) and id(n) not in guarded
+                  and n.attr in ("required_properties", "optional_properties")}
+    rep.check(reads == {"required_properties", "optional_properties"}, "R15.3", "_process_properties::parent-required-and-optional",
+              "only part of a referenced parent's properties is inherited", where(pp, loop), lhs=sorted(reads), rhs="required_properties and optional_properties")
+
+
+# ======================================================================================================================
+# R15.4: _process_models
+# ======================================================================================================================
+
+def _flows_into(fn: ast.AST, sinks: set[str]) -> set[str]:
+    """local names whose contents end up in one of the sink names: x.extend(y), x += y, x = [*y, *z] / y + z / list(chain(y, z))"""
+    feeds = set(sinks)
+    changed = True
+    while changed:
+        changed = False
+        new: set[str] = set()
+        for n in ast.walk(fn):
+            if isinstance(n, (ast.Assign, ast.AnnAssign)) and n.value is not None:
+                tg = n.targets if isinstance(n, ast.Assign) else [n.target]
+                if any(isinstance(t, ast.Name) and t.id in feeds for t in tg):
+                    new |= names_in(n.value)
+            elif isinstance(n, ast.AugAssign) and isinstance(n.target, ast.Name) and n.target.id in feeds:
+                new |= names_in(n.value)
+            elif isinstance(n, ast.Call) and isinstance(n.func, ast.Attribute) and n.func.attr in ("extend", "update") and norm(n.func.value) in feeds:
+                new |= {x for a in n.args for x in names_in(a)}
+        if not new <= feeds:
+            feeds |= new
+            changed = True
+    return feeds
+
+
+def _sep_anchored(e: ast.AST | None, fn: ast.AST) -> bool:
+    """does the suffix start with the path separator (so that it can only match a whole last component)?"""
+    if isinstance(e, ast.JoinedStr):
+        return bool(e.values) and isinstance(e.values[0], ast.Constant) and str(e.values[0].value).startswith("/")
+    if isinstance(e, ast.Constant):
+        return str(e.value).startswith("/")
+    if isinstance(e, ast.BinOp) and isinstance(e.op, ast.Add):
+        return _sep_anchored(e.left, fn)
+    if isinstance(e, ast.Name):
+        vals = Locals(fn).values_of(e.id)
+        return bool(vals) and all(_sep_anchored(v, fn) for v in vals)
+    return False
+
+
+def _parents_first(rep: Report, ctx: Any, cfgs: dict[str, CFG]) -> None:
+    ix = ctx.py
+    pm = ix.func("properties._process_models")
+    reg = region(ix, pm)
+    helpers = {g.name: g for g in reg if g is not pm}
+    cfg = cfg_of(pm, cfgs)
+    # roles: the work list is what the loop calling process_model iterates; the next round is what is assigned to it at the end of a
+    # pass; a recorded error is a (model, error) tuple appended to a list whose contents reach _process_model_errors
+    ploops = [n for n in ast.walk(pm.node) if isinstance(n, ast.For) and any(call_name(c) == "process_model" for c in calls_in(n))]
+    rep.require(ploops, "loop calling process_model")
+    pl = ploops[0]
+    model, work = norm(pl.target), norm(pl.iter)
+    nxt = {norm(a.value) for a in ast.walk(pm.node) if isinstance(a, ast.Assign) and norm(a.targets[0]) == work and isinstance(a.value, ast.Name)}
+    rounds = [w for w in ast.walk(pm.node) if isinstance(w, ast.While) and any(x is pl for x in ast.walk(w))]
+    rep.require(rounds, "the loop that repeats the pass over the models")
+    reset_each_round = {t.id for w in rounds for a in ast.walk(w) if isinstance(a, (ast.Assign, ast.AnnAssign)) for t in
+                        (a.targets if isinstance(a, ast.Assign) else [a.target]) if isinstance(t, ast.Name)}
+    requeues = [c for r, c in receivers(pl, "append", lambda a: a == model) if r in nxt]
+    records = [(r, c) for r, c in receivers(pl, "append", lambda a: a.startswith(f"({model},"))]
+    sink = [c for c in calls_in(pm.node) if call_name(c) == "_process_model_errors"]
+    rep.require(sink, "call of _process_model_errors")
+    feeds = _flows_into(pm.node, {x for c in sink for a in c.args for x in names_in(a)})
+    recorded = {r for r, _ in records}
+    # every model of a round is accounted for: processed (the schemas it produced are kept), queued for the next round, or reported
+    lc = Locals(pm.node)
+    outcomes = set(lc.bound_from(lambda v: v.startswith("process_model("), "assign"))
+    kept = [a for a in ast.walk(pl) if isinstance(a, ast.Assign) and isinstance(a.value, ast.Name) and a.value.id in outcomes and norm(a.targets[0]) == "schemas"]
+    req_st = [stmt_of(pm.node, c) for c in requeues]
+    final_st = [stmt_of(pm.node, c) for r, c in records if r in feeds and r not in reset_each_round]
+    accounted = kept + req_st + final_st
+    every = bool(pl.body) and (pl.body[0] in accounted or cfg.every_path_passes(pl.body[0], pl, lambda n: n in accounted))
+    rep.check(bool(requeues) and bool(recorded) and recorded <= feeds and every, "R15.4", "_process_models::requeue",
+              "a model whose parent is not processed yet is not re-queued (or its error of the last round is not reported)", where(pm, pl),
+              lhs={"requeue": [norm(c) for c in requeues], "recorded_in": sorted(recorded), "reported": sorted(feeds), "every_model_accounted_for": every},
+              rhs="<next round>.append(<model>) and (<model>, <error>) recorded in a list that reaches _process_model_errors, on every path")
+
+    # the self-reference decision: the test (here or in a helper it calls) that looks at the end of the reference
+    def ends_calls(e: ast.AST) -> list[tuple[Any, ast.Call]]:
+        out = [(pm, c) for c in calls_in(e) if isinstance(c.func, ast.Attribute) and c.func.attr == "endswith"]
+        for c in calls_in(e):
+            h = helpers.get(call_name(c).rsplit(".", 1)[-1])
+            if h is not None:
+                out += [(h, x) for x in calls_in(h.node) if isinstance(x.func, ast.Attribute) and x.func.attr == "endswith"]
+        return out
+
+    def is_selfref(e: ast.AST) -> bool:
+        return not isinstance(e, (ast.BoolOp, ast.UnaryOp)) and bool(ends_calls(e))
+
+    decisions = [(s, _polarity(s.test, is_selfref)) for s in ast.walk(pl) if isinstance(s, ast.If)]
+    decisions = [(s, p_) for s, p_ in decisions if p_ is not None]
+    rep.require(decisions, "the test for a reference of a model to itself (endswith)")
+    final_ok = True
+    facts = []
+    for s, pol in decisions:
+        entry, _ = _arm_entries(cfg, s, pol)
+        arm = cfg.reachable_from(entry, avoid=lambda n: n is pl) if entry is not pl else set()
+        ok = bool(final_st) and entry is not pl and (entry in final_st or cfg.every_path_passes(entry, pl, lambda n: n in final_st)) and \
+            not any(q in arm for q in req_st)
+        facts.append({"test": norm(s.test)[:60], "recorded_for_good": ok})
+        final_ok = final_ok and ok
+    rep.check(final_ok, "R15.4", "_process_models::self-reference-final",
+              "a self-referential allOf is not diverted to the final errors", where(pm, pm.node), lhs=facts,
+              rhs="recorded in a list that survives all rounds and reaches _process_model_errors; not re-queued")
+    for s, _ in decisions:
+        for g, n in ends_calls(s.test):
+            a = n.args[0] if n.args else None
+            rep.check(_sep_anchored(a, g.node), "R15.4", "_process_models::self-reference-test-anchored",
+                      "self reference is detected by a bare name suffix: a child whose name is a suffix of its parent's is never retried",
+                      where(g, n), lhs=norm(n)[:80], rhs="endswith(f\"/{name}\")")
+    # a parent that is not processed yet is an error of the child (which is what sends it into the next round)
+    pp = ix.func("model_property._process_properties")
+    found, reported = False, True
+    for g in region(ix, pp):
+        gcfg = cfg_of(g, cfgs)
+        for s in ast.walk(g.node):
+            if isinstance(s, ast.If) and any(isinstance(a, ast.Attribute) and a.attr in ("required_properties", "optional_properties") for a in ast.walk(s.test)):
+                found = True
+                # where control goes when the lists are not there yet: every isinstance(<...>_properties, list) is false
+                for v in _values_of_test(s.test, {norm(c): False for c in calls_in(s.test) if call_name(c) == "isinstance"}):
+                    entry, _ = _arm_entries(gcfg, s, v)
+                    is_err = lambda n: isinstance(n, ast.Return) and constructs_error(n.value)  # noqa: E731
+                    reported = reported and (is_err(entry) or EXIT not in gcfg.reachable_from(entry, avoid=is_err))
+    rep.require(found, "the test whether a referenced parent has been processed (required_properties / optional_properties are lists)")
+    rep.check(reported, "R15.4", "_process_properties::unprocessed-parent-error", "a not-yet-processed parent is not reported (so never retried)",
+              where(pp, pp.node))
+
+
+def _values_of_test(test: ast.expr, env: dict[str, bool]) -> set[bool]:
+    """the truth values a test can take when the given atoms have the given values (other atoms are free)"""
+    ex = SymExec(ast.parse("def _():\n    pass").body[0], env)  # type: ignore[arg-type]
+    return {v for v, _ in ex._truth(test, _State())}
